@@ -618,18 +618,10 @@ class Reaction(Object):
                     new_gene._model = self._model
                     model_genes.append(new_gene)
                     if context:
-                        # Remove the gene later
-                        context(
-                            partial(
-                                remove_genes,
-                                model=self._model,
-                                gene_list=[model_genes.get_by_id(g_id)],
-                                remove_reactions=False,
-                            )
-                        )
+                        # Remove the gene later. Only the gene itself, the gene
+                        # rules of the reactions are restored by their own undo.
+                        context(partial(model_genes.__isub__, [new_gene]))
                         context(partial(setattr, new_gene, "_model", None))
-                        # Maybe should be
-                        # context(partial(self._model.genes.__isub__, [new_gene]))
                 new_gene = model_genes.get_by_id(g_id)
                 self._genes.add(new_gene)
                 new_genes.add(new_gene)
